@@ -267,6 +267,14 @@ def c13_case(ctx: Ctx, case: dict, backend: str = "numpy", tag: str = "C13", cou
                     ok, skip, bad = oracle.compare_outputs(out, want, slots, {k: sp.get(k, mpf(0)) for k in slots}, fn)
                     ctx.count("values_ok", ok)
                     if bad:
+                        # the generated code itself at 50 digits: a disagreement that disappears there is float64
+                        # conditioning (sympy's flat sums evaluate a + (b - b) as a + b - b), not a wrong formula
+                        pb = oracle.PyBuild()
+                        pb.code = code
+                        bad = [(n_, g_, r_) for (n_, g_, r_, _) in oracle.confirm_values(
+                            ctx, pb, fn, order, bad, slots, {k: sp.get(k, mpf(0)) for k in slots},
+                            states=s, t=pt["t"], dt=pt["dt"], parameters=p, missing=mv)]
+                    if bad:
                         name, got, ref = bad[0]
                         ctx.violate(f"{tag}/{fn}/value", f"{fn} of {part} of {cname!r}: {name} = {oracle.fmt(got)} but the full model gives {oracle.fmt(ref)}",
                                     case={**case, "comp": cname, "points": [pt]})
